@@ -794,8 +794,19 @@ class Engine:
     def e_Dict(self, e, st):
         if not e.keys:
             return Val(TEmpty("dict"), None)
+        if all(k is None for k in e.keys):
+            # {**a, **b, ...}: only for total records of one type (TypedDict with every key present): the last one wins
+            vs = [self.ev(v, st) for v in e.values]
+            r = self.reg._hook("dict_merge", self, st, vs, e)
+            if r is not None:
+                return r
+            raise OutOfSubset("dict literal with ** unpacking")
+        if any(k is None for k in e.keys):
+            raise OutOfSubset("dict literal with ** unpacking")
         ks = [self.ev(k, st) for k in e.keys]
         vs = [self.ev(v, st) for v in e.values]
+        if all(isinstance(k, _StrLit) for k in ks):
+            return _PyRecord({k.s: v for k, v in zip(ks, vs)})
         if ks[0].ty == TName and vs[0].ty == TInt:
             t = TSpace.empty().t
             for k, v in zip(ks, vs):
@@ -1124,6 +1135,13 @@ class Engine:
             return Val(ty.elems[k], ty.get(base.t, k))
         if isinstance(base, _PyTuple) and z3.is_int_value(idx.t):
             return base.items[idx.t.as_long()]
+        if isinstance(base, _PyRecord):
+            if not isinstance(idx, _StrLit):
+                raise OutOfSubset("record subscript with a computed key")
+            if idx.s not in base.items:
+                self.oblige(st, f"key_present@{node.lineno}", False, node.lineno, kind="safety")
+                raise OutOfSubset(f"record has no key {idx.s!r}")
+            return base.items[idx.s]
         m = self.reg.model_for(base)
         if m is not None:
             return m.getitem(self, st, base, idx, node)
@@ -1205,6 +1223,15 @@ class _PyTuple(Val):
     def __init__(self, items):
         self.items = items
         self.ty = THelper("pytuple")
+        self.t = None
+
+
+class _PyRecord(Val):
+    """A dict literal whose keys are all string literals (a TypedDict record): key -> value, Python side."""
+
+    def __init__(self, items):
+        self.items = dict(items)
+        self.ty = THelper("record")
         self.t = None
 
 
